@@ -537,6 +537,25 @@ impl Session {
     }
 }
 
+#[cfg(feature = "verif-hooks")]
+impl Session {
+    pub(crate) fn verif_snapshot(&self) -> crate::verif::VerifSession {
+        let cmds = self.uplink.mac_commands();
+        let mut pending = [0u8; 15];
+        pending[..cmds.len()].copy_from_slice(cmds);
+        crate::verif::VerifSession {
+            devaddr: self.devaddr.value(),
+            fcnt_up: self.fcnt_up,
+            fcnt_down: self.fcnt_down,
+            adr_ack_cnt: self.adr_ack_cnt,
+            confirmed: self.confirmed,
+            owed_ack: self.uplink.confirms_downlink(),
+            pending,
+            pending_len: cmds.len() as u8,
+        }
+    }
+}
+
 /// Next lower region-supported data rate, if any.
 fn next_lower_datarate(region: &region::Configuration, current: DR) -> Option<DR> {
     let current = current as u8;
